@@ -11,8 +11,8 @@ RULE = ("one seeded history of 3-60 create/set/get/get-default/list calls over 7
         "non-trivial = history with at least one overwrite, one lookup miss and growth past the 8 pre-allocated entries or past the "
         "parsed length; distinct = distinct (constructor, op-kind sequence class, #entries, #sections, overwrite/miss/growth flags)")
 
-SECS = ["s1", "s2", "Sec 3", "x", "S", "s", "s1x"]        # incl. names that differ only in case / are prefixes of each other
-KEYS = ["a", "b", "key c", "d", "E", "A", "ab"]
+SECS = ["s1", "s2", "Sec 3", "x", "S", "s", "s1x", "_oNne_"]        # incl. names that differ only in case / are prefixes of each other
+KEYS = ["a", "b", "key c", "d", "E", "A", "ab", "_nooD_"]       # the last one: same djb2 hash as the reserved placeholder text, but another text
 NOOBJ = 99
 LONG = ["L" * 300, "x" * 1100 + " y", "seg " * 600, "k" * 2500]
 VALS = LONG + ["\"quoted text\"", "\"\"", "\"", "'single'", "\"a\" and \"b\"", "caf\xe9", "100%", "%s%n%d", "back\\slash\\", "ff\x0cvt\x0bcr\rmid", "", "v", "hello world", " padded ", "a=b", "# not a comment", "\"q\"", "[x]", "1", "true", "0x10", "multi\nline", "tab\there", "Yes Please"]
